@@ -3,19 +3,46 @@
 //!   replay hex <utf8-bytes-in-hex>...   parse each text, exit 1 if tree text != input or a panic occurs
 //!   replay search <seed> <count>        token-soup search (plus a fixed corpus), prints the first
 //!                                       failing input as hex and exits 1; exit 0 if none found
-use emmylua_parser::{LuaParser, ParserConfig};
+use emmylua_parser::{LuaLanguageLevel, LuaParser, ParserConfig};
+
+/// the configurations of the property's quantifier: default (5.5, doc on), doc off, Lua 5.1, LuaJIT
+fn config(k: usize) -> (&'static str, ParserConfig<'static>) {
+    match k {
+        0 => ("default", ParserConfig::default()),
+        1 => { let mut c = ParserConfig::default(); c.enable_emmylua_doc = false; ("doc-off", c) }
+        2 => ("lua5.1", ParserConfig::with_level(LuaLanguageLevel::Lua51)),
+        _ => ("luajit", ParserConfig::with_level(LuaLanguageLevel::LuaJIT)),
+    }
+}
+const NCONFIG: usize = 4;
 
 fn lossless(text: &str) -> Result<(), String> {
-    let t = text.to_string();
-    let r = std::panic::catch_unwind(move || {
-        let tree = LuaParser::parse(&t, ParserConfig::default());
-        tree.get_red_root().text().to_string()
-    });
-    match r {
-        Err(_) => Err("PANIC while parsing".to_string()),
-        Ok(out) if out != text => Err(format!("tree text {:?} != input {:?}", out, text)),
-        Ok(_) => Ok(()),
+    for k in 0..NCONFIG {
+        let t = text.to_string();
+        let r = std::panic::catch_unwind(move || {
+            let (_, c) = config(k);
+            let tree = LuaParser::parse(&t, c);
+            tree.get_red_root().text().to_string()
+        });
+        let name = config(k).0;
+        let show = |s: &str| if s.len() > 80 { format!("{:?}… ({} bytes)", &s[..s.char_indices().nth(60).map(|x| x.0).unwrap_or(s.len())], s.len()) } else { format!("{s:?}") };
+        match r {
+            Err(_) => return Err(format!("[config {name}] PANIC while parsing")),
+            Ok(out) if out != text => return Err(format!("[config {name}] tree text {} != input {}", show(&out), show(text))),
+            Ok(_) => {}
+        }
     }
+    Ok(())
+}
+
+/// inputs with very many syntax errors (lexer errors at an old language level, stray block closers)
+fn heavy_corpus() -> Vec<String> {
+    let mut v = Vec::new();
+    v.push(format!("{}local x = 1\n", "end\n".repeat(700)));
+    v.push(format!("{}return 1\n", "local a = 1 // 2 & 3 << 4\n".repeat(400)));
+    v.push(format!("{}x = 1\n", "until else ) ] }\n".repeat(300)));
+    v.push(format!("{}", "---@type\n".repeat(600)));
+    v
 }
 
 fn hex(s: &str) -> String { s.bytes().map(|b| format!("{b:02x}")).collect() }
@@ -25,7 +52,7 @@ fn unhex(h: &str) -> String {
 }
 
 const CORPUS: &[&str] = &["a\0b", "\0", "x--region\n;", "{;do", "{,end", "\u{feff}local a = 1", "--[[ a\0b ]] c",
-    "---@class A\n---@field x number\nlocal A = {}\n", "local x = 'é😀'\r\nreturn x", "#!shebang\nprint(1)", ""];
+    "---@class A\n---@field x number\nlocal A = {}\n", "-- c\nlocal t", "\u{feff}", "\u{feff}#!sh\n", "x = 1 -- c \n\n\n-- d\n", "local x = 'é😀'\r\nreturn x", "#!shebang\nprint(1)", ""];
 const ATOMS: &[&str] = &["x", " ", "\n", ";", "{", "}", "(", ")", ",", "do", "end", "if", "then", "--region", "--", "---@type T", "'s'", "\0",
     "1", "=", "local", "function", "é", "\r\n", "[[", "]]", "--[[", "::", ".", ":", "return", "\t", "\u{feff}", "~", "@"];
 
@@ -47,6 +74,9 @@ fn main() {
             for t in CORPUS {
                 if let Err(e) = lossless(t) { println!("FOUND hex={} {e}", hex(t)); std::process::exit(1); }
             }
+            for t in heavy_corpus() {
+                if let Err(e) = lossless(&t) { println!("FOUND hex={} {e}", hex(&t)); std::process::exit(1); }
+            }
             for _ in 0..n {
                 let mut t = String::new();
                 s ^= s << 13; s ^= s >> 7; s ^= s << 17;
@@ -57,7 +87,7 @@ fn main() {
                 }
                 if let Err(e) = lossless(&t) { println!("FOUND hex={} {e}", hex(&t)); std::process::exit(1); }
             }
-            println!("no failing input among the corpus and {n} token-soup texts");
+            println!("no failing input among the corpus and {n} token-soup texts x {NCONFIG} parser configurations");
             std::process::exit(0);
         }
         _ => { eprintln!("usage: replay hex <hex>... | replay search <seed> <count>"); std::process::exit(2); }
